@@ -29,6 +29,43 @@ fn run(e: &Engine) {
     e.proptest("common-command-histories", e.tier.pick(60_000, 3_000_000), || history([10, 3, 1, 2, 2], 30, 1), check);
     e.require_fraction("*STB? with >= 3 non-zero inputs", "history", 0.2);
     e.require_fraction("MAV both ways", "history", 0.5);
+    // bounded-exhaustive: EVERY *ESE value x *SRE values (every value in the thorough tier) x every
+    // subset of the settable ESR bits (OPC, QYE, DDE, EXE, CME), *STB? before and after *ESR?
+    let sres: Vec<i32> = if e.tier == crate::engine::Tier::Thorough && !cfg!(debug_assertions) { (0..256).collect() } else { vec![0, 1, 2, 4, 8, 16, 32, 64, 128, 255, 0x24, 0x60] };
+    let sres_ref = &sres;
+    e.enumerate::<History, _, _>(
+        "every-ese-sre-esr-combination",
+        256,
+        move |ese, f| {
+            use crate::rec::ErrSpec;
+            for &sre in sres_ref.iter() {
+                for pattern in 0u8..32 {
+                    let one = |u: U| Step { events: vec![], mav: false, tst: None, units: vec![(u, 0)] };
+                    let mut steps = Vec::new();
+                    if pattern & 1 != 0 {
+                        steps.push(one(U::Opc));
+                    }
+                    for (bit, code) in [(2u8, -400i16), (4, -300), (8, -200), (16, -100)] {
+                        if pattern & bit != 0 {
+                            steps.push(one(U::Fail(ErrSpec { code, custom: false, extended: false })));
+                        }
+                    }
+                    steps.push(Step { events: vec![], mav: false, tst: None, units: vec![(U::Ese(ese as i32), 0), (U::Sre(sre), 0)] });
+                    steps.push(Step { events: vec![], mav: (sre as u8 ^ pattern) & 1 == 1, tst: None, units: vec![(U::StbQ, 0)] });
+                    steps.push(one(U::EsrQ));
+                    steps.push(one(U::StbQ));
+                    if !f(History { bounded: pattern & 2 != 0, steps }) {
+                        return;
+                    }
+                }
+            }
+        },
+        check,
+    );
     // long queues: *STB? bit 2 with 250..520 unread items
     e.proptest("long-queue-histories", e.tier.pick(160, 4_000), long_queue_history, check);
+    // queues beyond 16-bit counts: 65540 .. 131080 unread items, counts and status byte at the 2^16 (2^17) marks
+    if !cfg!(debug_assertions) {
+        e.fixed("queue-beyond-65535-items", huge_cases(e.tier == crate::engine::Tier::Thorough), |h: &Huge, obs: &Obs| check(&huge_queue(h), obs));
+    }
 }
